@@ -274,6 +274,13 @@ pub fn with_rng<T>(ctx: &mut Ctx, free: bool, f: impl FnOnce() -> T) -> T {
     RNG_CTX.with(|c| c.set(std::ptr::null_mut()));
     r
 }
+/// after a panic unwound through `with_rng` / a seeded section: remove the callback (it points at
+/// the execution's context) and go back to hash seed 0
+pub fn reset_hooks_after_panic() {
+    verif_hooks::set_rng_callback(None);
+    RNG_CTX.with(|c| c.set(std::ptr::null_mut()));
+    verif_hooks::set_hash_seed(0);
+}
 pub fn rng_calls() -> u32 {
     RNG_CALLS.with(|c| c.get())
 }
